@@ -68,7 +68,7 @@ PROPS = {
                 assumptions=[HEADROOM, "REDUCED: determinism is shown for what is under contract: every C20-tagged postcondition pins the result and the new abstract state as spec FUNCTIONS of the old abstract state and the arguments (index = last of free list else counter; batch-kill stop position unique; merge returns killed indices ascending; join keys = ascending enumeration of the mask; marker ids from a counter), and lemma_deterministic composes this over whole allocator histories",
                              "OUTSIDE: event streams beyond the per-operation append (C12), serialised output and the serde paths (C14 is not applicable), SimpleMarkerAllocator::maintain (iterator adaptors), HashMapStorage::clean's drop order, cross-process replay; hash-map iteration is never used by code under contract (vstd gives HashMap no iteration order, so a contract that pinned a result computed from it could not verify)"]),
     'C05': dict(units=['world', 'data', 'storage'], witness='alloc',
-                assumptions=[HEADROOM, "WorldExt::delete_components is an ASSUMED contract (its body iterates shred's MetaTable<dyn AnyStorage>): it removes exactly the given indices from every listed storage and touches nothing else",
+                assumptions=[HEADROOM, "WorldExt::delete_components is under contract (loop invariant: the storages walked so far lost exactly the given indices, the rest is untouched) over an ASSUMED model of shred's MetaTable<dyn AnyStorage>: `iter_mut(world)` yields every listed storage exactly once (normalised to an index loop over that list, N10) and the dynamic call `storage.drop(ids)` is MaskedStorage<T>::drop for the listed T, whose real body is verified in unit storage (AnyStorage::drop: removes exactly those indices)",
                              "World accessors (entities_mut, write_resource) are stubs with the documented shred behaviour; LazyUpdate::maintain is unconstrained"]),
 }
 
@@ -117,9 +117,9 @@ MANIFEST_TEXT = {
         design_ref='DESIGN.md §5 C13', note=TB,
         technique='Verus contracts on extracted restrict.rs accessors against the trait-level storage contract'),
     'C05': dict(
-        level="Unbounded proof of the call-site obligations: delete_entities hands delete_components exactly the killed prefix on both paths (the #766 shape), delete_entity likewise, maintain purges exactly the handles merge() returned (whenever there are any), and lemmas show the invariant 'no listed storage holds a component at an unoccupied index' is preserved, so a (re)used index starts empty. The walk over the storage table itself (delete_components: trait objects in shred's MetaTable) is an assumed contract; AnyStorage::drop for MaskedStorage is proved in unit storage.",
-        design_ref='DESIGN.md §5 C05', note=TB + ' delete_components/MetaTable iteration assumed.',
-        technique='Verus contracts on extracted world_ext.rs functions + invariant lemmas; assumed contract for the MetaTable walk'),
+        level="Unbounded proof of the call-site obligations: delete_entities hands delete_components exactly the killed prefix on both paths (the #766 shape), delete_entity likewise, maintain purges exactly the handles merge() returned (whenever there are any), and lemmas show the invariant 'no listed storage holds a component at an unoccupied index' is preserved, so a (re)used index starts empty. The walk over the storage table (delete_components) is verified with a loop invariant over an assumed model of shred's MetaTable iteration (each listed storage once; dynamic dispatch to AnyStorage::drop, whose MaskedStorage body is proved in unit storage).",
+        design_ref='DESIGN.md §5 C05', note=TB + ' MetaTable iteration (each listed storage once) and the dyn dispatch to AnyStorage::drop are assumed.',
+        technique='Verus contracts on extracted world_ext.rs functions (incl. the MetaTable walk under a loop invariant) + invariant lemmas'),
     'C01': dict(
         level="Unbounded proof: every function of the allocator that can hand out or retire an index (allocate, allocate_atomic, kill, kill_atomic, merge and their callees) is verified by Verus against a representation invariant and an exact abstract transition; a trace lemma proved by induction over arbitrary-length chains of those transitions shows two creations never return the same (index, generation). Tests sample 3 histories; this covers all.",
         design_ref='DESIGN.md §4, §5 C01', note=TB,
